@@ -305,30 +305,310 @@ theorem imageViews_gz (name : Bytes) (ld ld' : Loader) (hf : HostFile) (m : Medi
     imageViews (name ++ strBytes ".gz") hf m ld nd = imageViews name hf m ld nd := by
   cases ld <;> simp only [imageViews, identifyImage, candidateList_gz name ld' h]
 
-theorem attach_gz (fs : HostFs) (nd : Bool) (name : Bytes) (ld : Loader) (st : MainState)
+/-- the state with another list of image names -/
+def setImages (im : List Bytes) (st : MainState) : MainState := { st with images := im }
+
+/-- attaching `name.gz` gives what attaching `name` gives, except for the recorded name -/
+theorem attach_gz_core (fs : HostFs) (nd : Bool) (name : Bytes) (ld : Loader) (st : MainState)
     (hname : loaderOf name = some (false, ld))
     (hsame : fs (name ++ strBytes ".gz") = fs name) :
-    attachFile fs nd (name ++ strBytes ".gz") st = attachFile fs nd name st := by
+    attachFile fs nd (name ++ strBytes ".gz") st =
+      (attachFile fs nd name st).map (setImages (st.images ++ [name ++ strBytes ".gz"])) := by
   unfold attachFile
   rw [loaderOf_gz name ld hname, hname, hsame]
   simp only [imageViews_gz name ld ld _ _ nd hname]
+  split
+  · rfl
+  · rfl
+  · split
+    · rfl
+    · rfl
+    · rfl
+    · split
+      · rfl
+      · split
+        · rfl
+        · rfl
+    · split
+      · rfl
+      · split
+        · rfl
+        · rfl
+
+theorem attach_gz (fs : HostFs) (nd : Bool) (name : Bytes) (ld : Loader) (st : MainState)
+    (hname : loaderOf name = some (false, ld))
+    (hsame : fs (name ++ strBytes ".gz") = fs name) :
+    (attachFile fs nd (name ++ strBytes ".gz") st).map (fun st => { st with images := [] }) =
+      (attachFile fs nd name st).map (fun st => { st with images := [] }) ∧
+    ∀ st1 st2, attachFile fs nd (name ++ strBytes ".gz") st = .ok st1 → attachFile fs nd name st = .ok st2 →
+      st1.images = st.images ++ [name ++ strBytes ".gz"] ∧ st2.images = st.images ++ [name] := by
+  refine ⟨?_, fun st1 st2 h1 h2 =>
+    ⟨Beeb.FsL.attachFile_images _ _ _ _ _ h1, Beeb.FsL.attachFile_images _ _ _ _ _ h2⟩⟩
+  rw [attach_gz_core fs nd name ld st hname hsame]
+  cases attachFile fs nd name st <;> rfl
+
+/-! ### states that agree except for the image names -/
+
+/-- states agree except for `images` -/
+def SimI (a b : MainState) : Prop :=
+  a.storage = b.storage ∧ a.medias = b.medias ∧ a.ctx = b.ctx ∧ a.policy = b.policy ∧
+  a.showConfig = b.showConfig ∧ a.verbose = b.verbose
+
+/-- two lists of names have the same members, apart from `x` and `y` -/
+def AgreeOff (x y : Bytes) (l1 l2 : List Bytes) : Prop :=
+  ∀ p, p ≠ x → p ≠ y → l1.contains p = l2.contains p
+
+theorem AgreeOff.snoc {x y : Bytes} {l1 l2 : List Bytes} (h : AgreeOff x y l1 l2) (a : Bytes) :
+    AgreeOff x y (l1 ++ [a]) (l2 ++ [a]) := by
+  intro p hx hy
+  have := h p hx hy
+  simp only [List.contains_eq_mem, List.mem_append, List.mem_singleton] at this ⊢
+  simp only [decide_eq_decide] at this ⊢
+  rw [this]
+
+theorem AgreeOff.start (x y : Bytes) (l : List Bytes) : AgreeOff x y (l ++ [x]) (l ++ [y]) := by
+  intro p hx hy
+  simp [hx, hy]
+
+def RelR (x y : Bytes) : Except RunRes MainState → Except RunRes MainState → Prop
+  | .error a, .error b => a = b
+  | .ok a, .ok b => SimI a b ∧ AgreeOff x y a.images b.images
+  | _, _ => False
+
+theorem attachFile_rel (fs : HostFs) (nd : Bool) (arg x y : Bytes) (st st' : MainState)
+    (h : SimI st st') (hi : AgreeOff x y st.images st'.images) :
+    RelR x y (attachFile fs nd arg st) (attachFile fs nd arg st') := by
+  obtain ⟨s, ms, ctx, pol, sc, v, im⟩ := st
+  obtain ⟨s', ms', ctx', pol', sc', v', im'⟩ := st'
+  obtain ⟨h1, h2, h3, h4, h5, h6⟩ := h
+  simp only at h1 h2 h3 h4 h5 h6 hi
+  subst h1 h2 h3 h4 h5 h6
+  unfold attachFile
+  split
+  · simp [RelR]
+  · split
+    · simp [RelR]
+    · simp [RelR]
+    · simp only []
+      split
+      · simp [RelR]
+      · simp [RelR]
+      · simp [RelR]
+      · split
+        · simp [RelR]
+        · split
+          · simp [RelR]
+          · exact ⟨⟨rfl, rfl, rfl, rfl, rfl, rfl⟩, hi.snoc arg⟩
+      · split
+        · simp [RelR]
+        · split
+          · simp [RelR]
+          · exact ⟨⟨rfl, rfl, rfl, rfl, rfl, rfl⟩, hi.snoc arg⟩
+
+theorem optLoop_rel (fs : HostFs) (nd : Bool) (x y : Bytes) (opts : List Opt) (st st' : MainState)
+    (h : SimI st st') (hi : AgreeOff x y st.images st'.images) :
+    RelR x y (optLoop fs nd opts st) (optLoop fs nd opts st') := by
+  induction opts generalizing st st' with
+  | nil => simpa [optLoop, RelR] using ⟨h, hi⟩
+  | cons o more ih =>
+    obtain ⟨h1, h2, h3, h4, h5, h6⟩ := h
+    cases o with
+    | bad => simp [optLoop, RelR]
+    | opt o arg =>
+      cases o with
+      | file =>
+        simp only [optLoop]
+        have := attachFile_rel fs nd arg x y st st' ⟨h1, h2, h3, h4, h5, h6⟩ hi
+        revert this
+        cases attachFile fs nd arg st <;> cases attachFile fs nd arg st' <;> simp only [RelR] <;> intro h
+        · exact h
+        · exact h.elim
+        · exact h.elim
+        · exact ih _ _ h.1 h.2
+      | dir =>
+        simp only [optLoop]
+        split
+        · simp [RelR]
+        · exact ih _ _ ⟨h1, h2, by simp [h3], h4, h5, h6⟩ hi
+      | drive =>
+        simp only [optLoop]
+        split
+        · simp [RelR]
+        · split
+          · simp [RelR]
+          · exact ih _ _ ⟨h1, h2, by simp [h3], h4, h5, h6⟩ hi
+      | driveFirst => simp only [optLoop]; exact ih _ _ ⟨h1, h2, h3, rfl, h5, h6⟩ hi
+      | drivePhysical => simp only [optLoop]; exact ih _ _ ⟨h1, h2, h3, rfl, h5, h6⟩ hi
+      | showConfig => simp only [optLoop]; exact ih _ _ ⟨h1, h2, h3, h4, rfl, h6⟩ hi
+      | ui =>
+        simp only [optLoop]
+        split
+        · simp [RelR]
+        · exact ih _ _ ⟨h1, h2, by simp [h3], h4, h5, h6⟩ hi
+      | verbose => simp only [optLoop]; exact ih _ _ ⟨h1, h2, h3, h4, h5, rfl⟩ hi
+      | help => simp [optLoop, RelR]
+
+/-! ### the commands and the image names -/
+
+/-- the environment with another list of image names -/
+def imgEnv (env : Env) (im : List Bytes) : Env := { env with images := im }
+
+theorem mount_img (env : Env) (im s) : (imgEnv env im).mount s = env.mount s := rfl
+theorem info_img (env : Env) (im a) : cmdInfo (imgEnv env im) a = cmdInfo env a := rfl
+theorem cat_img (env : Env) (im a) : cmdCat (imgEnv env im) a = cmdCat env a := rfl
+theorem type_img (env : Env) (im a) : cmdType (imgEnv env im) a = cmdType env a := rfl
+theorem list_img (env : Env) (im a) : cmdList (imgEnv env im) a = cmdList env a := rfl
+theorem dump_img (env : Env) (im a) : cmdDump (imgEnv env im) a = cmdDump env a := rfl
+theorem dumpSector_img (env : Env) (im a) : cmdDumpSector (imgEnv env im) a = cmdDumpSector env a := rfl
+theorem free_img (env : Env) (im a) : cmdFree (imgEnv env im) a = cmdFree env a := rfl
+theorem sectorMap_img (env : Env) (im a) : cmdSectorMap (imgEnv env im) a = cmdSectorMap env a := rfl
+
+theorem spaceGo_img (env : Env) (im sels l out free) :
+    spaceRun.go (imgEnv env im) sels l out free = spaceRun.go env sels l out free := by
+  induction l generalizing out free with
+  | nil => simp [spaceRun.go]
+  | cons sel rest ih =>
+    simp only [spaceRun.go, mount_img]
+    split <;> try rfl
+    split <;> try rfl
+    exact ih _ _
+
+theorem space_img (env : Env) (im a) : cmdSpace (imgEnv env im) a = cmdSpace env a := by
+  unfold cmdSpace spaceRun
+  simp only [spaceGo_img]
+  rfl
+
+theorem showTitle_img (env : Env) (im d) : showTitle (imgEnv env im) d = showTitle env d := rfl
+
+theorem showTitlesGo_img (env : Env) (im l ok out) :
+    cmdShowTitles.go (imgEnv env im) l ok out = cmdShowTitles.go env l ok out := by
+  induction l generalizing ok out with
+  | nil => simp [cmdShowTitles.go]
+  | cons d rest ih =>
+    simp only [cmdShowTitles.go, showTitle_img]
+    split <;> try rfl
+    exact ih _ _
+
+theorem showTitles_img (env : Env) (im a) : cmdShowTitles (imgEnv env im) a = cmdShowTitles env a := by
+  unfold cmdShowTitles
+  simp only [showTitlesGo_img]
+  rfl
+
+/-- when the image names can make no difference to a command: it is not one of the extract
+    commands, or the two lists agree on every path inside its destination -/
+def ImagesMoot (args : List Bytes) (i1 i2 : List Bytes) : Prop :=
+  (args.head? ≠ some (strBytes "extract-files") ∧ args.head? ≠ some (strBytes "extract-unused")) ∨
+  ∀ a0 a, args = [a0, a] → ∀ leaf, i1.contains (destDir a ++ leaf) = i2.contains (destDir a ++ leaf)
+
+theorem runCommand_img (env : Env) (i1 i2 : List Bytes) (args : List Bytes) (h : ImagesMoot args i1 i2) :
+    runCommand (imgEnv env i1) args = runCommand (imgEnv env i2) args := by
+  cases args with
+  | nil => rfl
+  | cons c t =>
+    simp only [runCommand, info_img, cat_img, type_img, list_img, dump_img, dumpSector_img, free_img,
+      space_img, sectorMap_img, showTitles_img]
+    rcases h with ⟨h1, h2⟩ | h
+    · have h1' : (c == strBytes "extract-files") = false := by
+        simp only [List.head?_cons, ne_eq, Option.some.injEq] at h1
+        simpa using h1
+      have h2' : (c == strBytes "extract-unused") = false := by
+        simp only [List.head?_cons, ne_eq, Option.some.injEq] at h2
+        simpa using h2
+      simp only [h1', h2', Bool.false_eq_true, if_false]
+    · have e1 : cmdExtractFiles (imgEnv env i1) (c :: t) = cmdExtractFiles (imgEnv env i2) (c :: t) :=
+        Beeb.FsL.cmdExtractFiles_agree env i1 i2 _ h
+      have e2 : cmdExtractUnused (imgEnv env i1) (c :: t) = cmdExtractUnused (imgEnv env i2) (c :: t) :=
+        Beeb.FsL.cmdExtractUnused_agree env i1 i2 _ h
+      rw [e1, e2]
+
+/-- the tail of `dfsRun` after the option loop -/
+theorem dfsRun_of_rel (fs : HostFs) (nd : Bool) (cols : Option Nat) (o1 o2 : List Opt) (rest : List Bytes)
+    (x y : Bytes)
+    (h : RelR x y (optLoop fs nd o1 default) (optLoop fs nd o2 default))
+    (hm : ∀ i1 i2, AgreeOff x y i1 i2 → ImagesMoot rest i1 i2) :
+    dfsRun fs nd cols o1 rest = dfsRun fs nd cols o2 rest := by
+  unfold dfsRun
+  revert h
+  cases optLoop fs nd o1 default <;> cases optLoop fs nd o2 default <;> simp only [RelR] <;> intro h
+  · subst h; rfl
+  · exact h.elim
+  · exact h.elim
+  · next a b =>
+    obtain ⟨⟨h1, h2, h3, h4, h5, h6⟩, hi⟩ := h
+    cases rest with
+    | nil => rfl
+    | cons cmd more =>
+      have e : runCommand (runEnv a nd cols) (cmd :: more) = runCommand (runEnv b nd cols) (cmd :: more) := by
+        have := runCommand_img (runEnv b nd cols) a.images b.images (cmd :: more) (hm _ _ hi)
+        simp only [runEnv, imgEnv] at this ⊢
+        rw [h1, h2, h3]
+        exact this
+      simp only [runEnv] at e
+      simp only [e, h5, h6]
+
+/-- the image names of the two runs are irrelevant to `rest` -/
+theorem moot_of_outside (rest : List Bytes) (x y : Bytes)
+    (hout : (∀ a0 a, rest = [a0, a] → ¬ (destDir a).isPrefixOf x) ∧
+            (∀ a0 a, rest = [a0, a] → ¬ (destDir a).isPrefixOf y)) :
+    ∀ i1 i2, AgreeOff x y i1 i2 → ImagesMoot rest i1 i2 := by
+  intro i1 i2 hi
+  right
+  intro a0 a hr leaf
+  apply hi
+  · intro e
+    apply hout.1 a0 a hr
+    rw [← e, List.isPrefixOf_iff_prefix]
+    exact List.prefix_append _ _
+  · intro e
+    apply hout.2 a0 a hr
+    rw [← e, List.isPrefixOf_iff_prefix]
+    exact List.prefix_append _ _
+
+theorem run_gz_gen (fs : HostFs) (nd : Bool) (cols : Option Nat) (name : Bytes) (ld : Loader)
+    (before after : List Opt) (rest : List Bytes)
+    (hname : loaderOf name = some (false, ld))
+    (hsame : fs (name ++ strBytes ".gz") = fs name)
+    (hm : ∀ i1 i2, AgreeOff (name ++ strBytes ".gz") name i1 i2 → ImagesMoot rest i1 i2) :
+    dfsRun fs nd cols (before ++ [Opt.opt .file (name ++ strBytes ".gz")] ++ after) rest =
+    dfsRun fs nd cols (before ++ [Opt.opt .file name] ++ after) rest := by
+  apply dfsRun_of_rel fs nd cols _ _ rest (name ++ strBytes ".gz") name _ hm
+  rw [List.append_assoc, List.append_assoc, optLoop_append, optLoop_append fs nd before]
+  cases optLoop fs nd before default with
+  | error r => simp [RelR]
+  | ok st' =>
+    simp only [List.singleton_append, optLoop]
+    rw [attach_gz_core fs nd name ld st' hname hsame]
+    have hi := Beeb.FsL.attachFile_images fs nd name st'
+    revert hi
+    cases attachFile fs nd name st' with
+    | error e => intro _; simp [RelR, Except.map]
+    | ok s2 =>
+      intro hi
+      simp only [Except.map]
+      apply optLoop_rel
+      · exact ⟨rfl, rfl, rfl, rfl, rfl, rfl⟩
+      · rw [hi s2 rfl]
+        exact AgreeOff.start _ _ _
 
 theorem run_gz (fs : HostFs) (nd : Bool) (cols : Option Nat) (name : Bytes) (ld : Loader)
     (before after : List Opt) (rest : List Bytes)
     (hname : loaderOf name = some (false, ld))
-    (hsame : fs (name ++ strBytes ".gz") = fs name) :
+    (hsame : fs (name ++ strBytes ".gz") = fs name)
+    (hout : (∀ a0 a, rest = [a0, a] → ¬ (destDir a).isPrefixOf name) ∧
+            (∀ a0 a, rest = [a0, a] → ¬ (destDir a).isPrefixOf (name ++ strBytes ".gz"))) :
     dfsRun fs nd cols (before ++ [Opt.opt .file (name ++ strBytes ".gz")] ++ after) rest =
-    dfsRun fs nd cols (before ++ [Opt.opt .file name] ++ after) rest := by
-  have key : optLoop fs nd (before ++ [Opt.opt .file (name ++ strBytes ".gz")] ++ after) default =
-      optLoop fs nd (before ++ [Opt.opt .file name] ++ after) default := by
-    rw [List.append_assoc, List.append_assoc, optLoop_append, optLoop_append fs nd before]
-    cases optLoop fs nd before default with
-    | error r => rfl
-    | ok st' =>
-      simp only [List.singleton_append, optLoop]
-      rw [attach_gz fs nd name ld st' hname hsame]
-  unfold dfsRun
-  rw [key]
+    dfsRun fs nd cols (before ++ [Opt.opt .file name] ++ after) rest :=
+  run_gz_gen fs nd cols name ld before after rest hname hsame
+    (moot_of_outside rest _ _ ⟨hout.2, hout.1⟩)
+
+theorem run_gz_readonly (fs : HostFs) (nd : Bool) (cols : Option Nat) (name : Bytes) (ld : Loader)
+    (before after : List Opt) (rest : List Bytes)
+    (hname : loaderOf name = some (false, ld))
+    (hsame : fs (name ++ strBytes ".gz") = fs name)
+    (hcmd : rest.head? ≠ some (strBytes "extract-files") ∧ rest.head? ≠ some (strBytes "extract-unused")) :
+    dfsRun fs nd cols (before ++ [Opt.opt .file (name ++ strBytes ".gz")] ++ after) rest =
+    dfsRun fs nd cols (before ++ [Opt.opt .file name] ++ after) rest :=
+  run_gz_gen fs nd cols name ld before after rest hname hsame (fun _ _ _ => Or.inl hcmd)
 
 theorem attachFile_bad (fs : HostFs) (nd : Bool) (arg : Bytes) (st : MainState)
     (hbad : fs arg = HostFile.gzBad) :
